@@ -2,6 +2,7 @@ import RemocModel.Table.Lemmas
 import RemocModel.Table.OneWay
 import RemocModel.Props.C08
 import RemocModel.Table.ConnSys
+import RemocModel.Table.ConnBridge
 import RemocModel.Table.ConnTerm
 set_option linter.unusedSimpArgs false
 
